@@ -592,4 +592,106 @@ Proof.
 Qed.
 
 End Body.
+
+(* ------------------------------------------------------------------ functions *)
+Definition need_fs (fs : list (str * function)) : nat :=
+  fold_right (fun nf m => frame_need9 (snd nf) + m)%nat 0%nat fs.
+
+(* where the functions are: the handle the call sites use, the label, the code, the global names *)
+Fixpoint placed9 (fs : list (str * function)) : Prop :=
+  match fs with
+  | [] => True
+  | (n, f) :: r =>
+      (exists h pre, sm_find n FT = Some (h, N.of_nat (length (f_args f)) mod two32) /\ h < 4294967296 /\
+                     assoc h (p_labels P) = Some (bytes pre) /\ seg' pre (code_fn9 T FT (bytes pre) f) /\
+                     names_ok (fn_gnames9 f)) /\ placed9 r
+  end.
+
+Lemma stmt_depth_le9 cards c :
+  In c cards -> (stmt_depth9 c <= fold_right (fun c m => Nat.max (stmt_depth9 c) m) 0 cards)%nat.
+Proof. induction cards as [|x r IH]; cbn [In fold_right]; [tauto|]. intros [->|H]; [lia | specialize (IH H); lia]. Qed.
+
+Lemma combine_facts9 : forall (a : list str) (b : list RefSem.value), length a = length b ->
+  lnames (combine a b) = a /\ map (fun nv : str * RefSem.value => to_vm (snd nv)) (combine a b) = map to_vm b /\
+  (Forall simple b -> gsimple (combine a b)).
+Proof.
+  induction a as [|x a IH]; intros [|y b] H; cbn in H; try discriminate H.
+  - repeat split. intros _. constructor.
+  - destruct (IH b ltac:(lia)) as (A & B & C). cbn [combine lnames map fst snd]. fold (lnames (combine a b)).
+    rewrite A, B. repeat split. intros Hs. inversion Hs; subst. constructor; [assumption | apply C; assumption].
+Qed.
+
+Lemma fn_sim9 f r need dn :
+  calls_ok9 (sem9 r) (sig_of r) need dn -> fn_ok9 r f = true ->
+  forall pre, seg' pre (code_fn9 T FT (bytes pre) f) -> names_ok (fn_gnames9 f) ->
+  forall vals g gv below fr rest hp,
+    length vals = length (f_args f) -> Forall simple vals -> grel' g gv -> gsimple g ->
+    N.to_nat (fr_off fr) = length below -> (length below + (frame_need9 f + need) < cap)%nat ->
+    (length rest + S dn < call_stack_size)%nat ->
+    match call9 (sem9 r) f vals g with
+    | (Some v, g') => exists k gv' fr' hp' ipr mid,
+        steps9' k (bytes pre, below ++ map to_vm vals, gv, fr :: rest, hp)
+                  (ipr, below ++ mid ++ [to_vm v], gv', fr' :: rest, hp') /\
+        fr_off fr' = fr_off fr /\ code_at P ipr IReturn /\ grel' g' gv' /\ gsimple g' /\ simple v
+    | (None, g') => exists k c1,
+        steps9' k (bytes pre, below ++ map to_vm vals, gv, fr :: rest, hp) c1 /\ fail9 c1 /\ grel' g' (gl9 c1) /\ gsimple g'
+    end.
+Proof.
+  intros Hcalls Hok pre Hseg Hnm vals g gv below fr rest hp Hlen Hvs Hrel Hsg Hoff Hroom Hdn.
+  unfold fn_ok9 in Hok. apply andb_true_iff in Hok. destruct Hok as [_ Hcards].
+  unfold call9, code_fn9, fn_gnames9, frame_need9 in *.
+  set (R0 := combine (f_args f) (rev vals)).
+  destruct (combine_facts9 (f_args f) (rev vals) ltac:(rewrite rev_length; lia)) as (HlnR0 & HmapR0 & HsR0). fold R0 in HlnR0, HmapR0, HsR0.
+  assert (HlsR0 : lstack R0 = map to_vm vals).
+  { unfold lstack. rewrite HmapR0, map_rev, rev_involutive. reflexivity. }
+  assert (HlenR0 : length R0 = length (f_args f)) by (rewrite <- (lnames_length R0), HlnR0; reflexivity).
+  specialize (HsR0 ltac:(apply Forall_rev; exact Hvs)).
+  assert (Hsimp0 : gsimple (R0 ++ g)) by (apply gsimple_app9; auto).
+  set (cards := f_cards f) in *. set (ct := code_top9 T FT (f_args f) (bytes pre) cards) in *.
+  set (npop := length (names_end (f_args f) cards)) in *.
+  destruct (runs9 (sem9 r) R0 g cards) as [[out R'] g1] eqn:Erun.
+  destruct (body_sim9 (sem9 r) (sig_of r) need dn Hcalls below rest ltac:(lia) true cards R0 g out R' g1
+              ltac:(rewrite HlnR0; exact Hcards) Erun pre gv fr hp ltac:(rewrite HlnR0; eapply seg_app_l; exact Hseg)
+              ltac:(rewrite HlnR0; exact Hnm) Hoff) as [[Hs Hc] Hl]; [|exact Hrel | exact Hsimp0|].
+  { rewrite HlnR0. intros c Hin. pose proof (stmt_depth_le9 cards c Hin). fold npop. lia. }
+  rewrite HlsR0, HlnR0 in Hc. fold ct in Hc.
+  pose proof (proj2 (proj1 (gsimple_app9 R' g1) Hs)) as Hsg1.
+  destruct out.
+  - destruct Hc as (k & gv' & fr' & hp' & Hst & Hfo & Hrel'). specialize (Hl eq_refl). rewrite HlnR0 in Hl.
+    assert (Hnp : length (lstack R') = npop) by (rewrite lstack_length, <- (lnames_length R'), Hl; reflexivity).
+    pose proof (seg_app_r _ _ _ _ Hseg) as Stail. fold ct in Stail.
+    assert (Spop : seg' (pre ++ ct) (repeat IPop (length (lstack R')))) by (rewrite Hnp; eapply seg_app_l; exact Stail).
+    pose proof (pops9 dn below rest ltac:(lia) (lstack R') (pre ++ ct) gv' (fr' :: rest) hp' Spop) as Hpops. rewrite Hnp in Hpops.
+    pose proof (seg_app_r _ _ _ _ Stail) as Snil. destruct (seg_cons9 _ _ _ Snil) as [Cnil Sret].
+    pose proof (seg_instr _ _ _ _ Sret) as Cret. rewrite bytes_snoc in Cret. change (spanN IScalarNil) with 1 in Cret.
+    assert (Hroom1 : (S (length below) < cap)%nat) by lia.
+    pose proof (@ex_scalar_nil F bld P cap (fr' :: rest) hp' None [] _ below gv' Cnil Hroom1) as Hnil.
+    exists (k + npop + 1)%nat, gv', fr', hp', (bytes ((pre ++ ct) ++ repeat IPop npop) + 1), (@nil value).
+    split; [|cbn; auto 6].
+    eapply steps9_trans; [eapply steps9_trans; [exact Hst | exact Hpops]|]. apply steps9_1. apply exec1_exec9. exact Hnil.
+  - destruct Hc as (k & gv' & fr' & hp' & ipr & mid & Hst & Hfo & Hret & Hrel' & Hv).
+    exists k, gv', fr', hp', ipr, mid. auto 8.
+  - destruct Hc as (k & c1 & Hst & Hf & Hrel'). exists k, c1. auto.
+Qed.
+
+Lemma fns_sim9 fs : fns_ok9 fs = true -> placed9 fs -> calls_ok9 (sem9 fs) (sig_of fs) (need_fs fs) (length fs).
+Proof.
+  induction fs as [|[n f] r IH]; intros Hok Hpl.
+  - intros name k Hf. discriminate Hf.
+  - cbn [fns_ok9] in Hok. apply andb_true_iff in Hok. destruct Hok as [Hf Hr].
+    destruct Hpl as [(h & pre & Eft & Hh & Hlab & Hseg & Hnm) Hpr].
+    specialize (IH Hr Hpr).
+    intros name k Hfind. cbn [sig_of map sm_find fst snd] in Hfind. cbn [sem9].
+    destruct (str_eqb name n) eqn:E.
+    + apply str_eqb_eq in E. subst name. injection Hfind as <-.
+      exists h, (bytes pre). split; [exact Eft|]. split; [exact Hh|]. split; [exact Hlab|].
+      intros vals g gv below fr rest hp L1 L2 L3 L4 L5 L6 L7.
+      apply (fn_sim9 f r (need_fs r) (length r) IH Hf pre Hseg Hnm vals g gv below fr rest hp L1 L2 L3 L4 L5);
+        [cbn [need_fs fold_right snd] in L6; exact L6 | cbn [length] in L7; lia].
+    + destruct (IH name k Hfind) as (h' & pos & A & B & C & D). exists h', pos.
+      split; [exact A|]. split; [exact B|]. split; [exact C|].
+      intros vals g gv below fr rest hp L1 L2 L3 L4 L5 L6 L7. cbn [need_fs fold_right snd length] in L6, L7.
+      apply D; auto; unfold need_fs; lia.
+Qed.
+
 End Run9b.
